@@ -5,6 +5,9 @@ package main
 func init() {
 	obs := []Ob{
 		{ID: "E8.enc.fragment-raw", Fn: "op.setFragment", P: []string{"uri", "params"}, Kind: "store", Pat: "store($uri.RawFragment, $params.Encode())", Max: 1},
+		{ID: "E8.enc.fragment-consistent", Fn: "op.setFragment", P: []string{"uri", "params"}, Kind: "store", Pat: "store($uri.Fragment, res(0, url.PathUnescape($uri.RawFragment)))", Max: 1,
+			Why: "URL.String() emits RawFragment only while it is a valid encoding of Fragment under path-unescaping; any other decoder makes it re-escape the decoded value"},
+		{ID: "E8.enc.fragment-single-writer", Fn: "op.setFragment", P: []string{"uri", "params"}, Kind: "store", Pat: "store($uri.Fragment, _)", Max: 1},
 		{ID: "E8.enc.fragment-returns-uri", Fn: "op.setFragment", P: []string{"uri", "params"}, Kind: "ret any", Pat: "ret($uri.String())", Max: 1},
 		{ID: "E8.merge.keeps-existing", Fn: "op.mergeQueryParams", P: []string{"uri", "params"}, Kind: "store", Pat: "store($uri.RawQuery, $q.Encode())", Max: 1,
 			Why: "query parameters already present in the registered redirect URI are preserved",
